@@ -257,7 +257,7 @@ def run(ctx):
     ctx.extra["exhaustive_alphabet"] = alphabet
     ctx.extra["exhaustive_max_len"] = maxlen
     # 2. random grammatical + mutations
-    n = ctx.scale(1500, 60000)
+    n = ctx.scale(4000, 60000)
     strings = []
     for i in range(n):
         if i % 50 == 0:
